@@ -87,7 +87,10 @@ def handle (args : List String) (impl : String) : R Ans :=
       pure { model := toString (gcCount c s), verdict := vEq impl (toString (KSpec.gcCount (toSeq c s))) }
     | "tostr", [x] => do
       let s ← st x
-      pure { model := String.ofList ((toStr c s).map Char.ofNat), verdict := vEq impl (String.ofList ((KSpec.toText (toSeq c s)).map Char.ofNat)) }
+      -- `to_string()` and the `Debug` form both render the K letters
+      let m := String.ofList ((toStr c s).map Char.ofNat)
+      let e := String.ofList ((KSpec.toText (toSeq c s)).map Char.ofNat)
+      pure { model := m ++ "|" ++ m, verdict := vEq impl (e ++ "|" ++ e) }
     | "frombytes", [bs] => do
       let bs ← natDigits bs
       let model := match fromBytes c bs with | some s => showK c s | none => "panic"
